@@ -394,7 +394,30 @@ def gen_case(rng, maxrows):
     if rng.random() < 0.3 and nk:
         case['phase2'] = [keycell(rng, kinds[0]) for _ in range(nl)]
         case['phase2_via'] = rng.choice(['item', 'attr'])
+    if rng.random() < 0.08:
+        case = rename_columns(case)
     return case
+
+
+def rename_columns(case):
+    """the same case over columns that are called like parameters of the library's own constructors / methods"""
+    ren = {'v': 'data', 'lx': 'columns', 'k0': 'key', 'j0': 'mode', 'k1': 'lcols', 'j1': 'other'}
+
+    def rn(x):
+        if isinstance(x, str):
+            return ren.get(x, x)
+        if isinstance(x, list):
+            return [rn(v) for v in x]
+        if isinstance(x, dict):
+            return {(k if k in ('s', 'f', 'f1', 'list', 'tuple', 'fn') else rn(k)): rn(v) for k, v in x.items()}
+        return x
+    out = dict(case)
+    for side in ('x', 'y'):
+        out[side] = {'cols': {ren.get(c, c): v for c, v in case[side]['cols'].items()}}
+    out['l'], out['r'] = rn(case['l']), rn(case['r'])
+    if 'phase2_via' in out:
+        out['phase2_via'] = 'item'
+    return out
 
 
 def _norm(s):
